@@ -333,7 +333,9 @@ func (srv *Server) ListenAndServe() error {
 		if err != nil {
 			return err
 		}
-		srv.Listener = l
+		// A socket that an earlier run left in the other field is that
+		// run's business, not this one's (see ShutdownContext).
+		srv.Listener, srv.PacketConn = l, nil
 		srv.started = true
 		unlock()
 		return srv.serveTCP(l)
@@ -347,7 +349,7 @@ func (srv *Server) ListenAndServe() error {
 			return err
 		}
 		l = tls.NewListener(l, srv.TLSConfig)
-		srv.Listener = l
+		srv.Listener, srv.PacketConn = l, nil
 		srv.started = true
 		unlock()
 		return srv.serveTCP(l)
@@ -361,7 +363,7 @@ func (srv *Server) ListenAndServe() error {
 			u.Close()
 			return e
 		}
-		srv.PacketConn = l
+		srv.PacketConn, srv.Listener = l, nil
 		srv.started = true
 		unlock()
 		return srv.serveUDP(u)
